@@ -38,6 +38,7 @@ def run(rep, prog, tier):
     from .c05 import r1 as reader_region
     reader_region(Retag(rep, "C10-R9"), prog)
     r10(rep, prog)
+    r11(rep, prog)
 
 
 def r10(rep, prog):
@@ -74,6 +75,36 @@ def r10(rep, prog):
         ok = ("param", 2) in lv
         rep.check(ok, R, "store_meta caches the IndexMeta it is given", "Arc::new(index_meta.clone())", "store_meta no longer stores (a clone of) its IndexMeta parameter (%s)" % sorted(lv), site=sb.span)
         rep.check("tantivy::index::index_meta::IndexMeta" in sb.local_ty_str(2), R, "store_meta receives the whole IndexMeta", "parameter type &IndexMeta", "store_meta's parameter is no longer an IndexMeta", site=sb.span)
+
+
+def r11(rep, prog):
+    """a SegmentMeta derived from another keeps the temp-doc-store flag of its source"""
+    R = "C10-R11"
+    rep.rule(R, "derived metas keep the temp-store flag: SegmentMeta::with_max_doc / with_delete_meta build a new InnerSegmentMeta from an existing one; its include_temp_doc_store (which decides whether list_files — and therefore the garbage collector's living set — contains <segment>.store.temp) comes from the source meta, not from a fresh constant: re-arming the flag after untrack_temp_docstore() keeps the temporary doc store of a sorted segment alive for ever")
+    pre = "tantivy::index::index_meta::SegmentMeta::"
+    n = 0
+    for fid in sorted(prog.bodies):
+        if not (fid.startswith(pre + "with_") and "{closure#" in fid):
+            continue
+        b = prog.bodies[fid]
+        if b.argc != 2 or "InnerSegmentMeta" not in b.local_ty_str(2):
+            continue
+        for bi in b.normal_blocks():
+            for st in b.stmts(bi):
+                if st.get("r") == "agg" and (st.get("adt") or "").endswith("index_meta::InnerSegmentMeta"):
+                    n += 1
+                    fields = st.get("fields", [])
+                    if "include_temp_doc_store" not in fields:
+                        rep.fail(R, "%s: flag field" % short(fid), "cannot establish: InnerSegmentMeta has no include_temp_doc_store field", site=site(b, bi))
+                        continue
+                    o = st["o"][fields.index("include_temp_doc_store")]
+                    l = op_local(o)
+                    leaves = provenance(b, l) if l is not None else set()
+                    from_src = ("param", 2) in {x[:2] for x in leaves}
+                    rep.check(from_src, R, "%s takes include_temp_doc_store from the source meta" % short(fid.split("::{closure")[0]), "derived from the source InnerSegmentMeta",
+                              "`%s` builds the new segment meta with a fresh include_temp_doc_store (sources: %s) instead of the source meta's flag: a segment whose temp doc store was untracked lists "
+                              "<segment>.store.temp as a living file again, garbage collection never removes it" % (fid.split("::{closure")[0], sorted(str(x[:2]) for x in leaves)[:3]), site=site(b, bi))
+    rep.floor(R, "derived InnerSegmentMeta constructions", n, 2)
 
 
 def r1(rep, prog):
